@@ -10,6 +10,7 @@ import (
 	"strings"
 	"sync"
 
+	"golang.org/x/tools/go/packages"
 	"golang.org/x/tools/go/ssa"
 )
 
@@ -58,6 +59,7 @@ type Engine struct {
 	goSites      map[string][]*ssa.Go
 	forms        []rawForm
 	rebound      map[string]string
+	loaded       []*packages.Package
 	declared     map[string]bool
 }
 
@@ -198,6 +200,11 @@ func (e *Engine) oblige(fx *FuncExec, st *State, class, key, goal, desc string, 
 	if goal == "true" {
 		vc.Result = "unsat"
 		vc.Solver = "trivial"
+	}
+	if class == "table" && goal == "false" {
+		vc.Result = "sat"
+		vc.Solver = "ground"
+		vc.Output = desc
 	}
 	ob.VCs = append(ob.VCs, vc)
 	e.mu.Unlock()
@@ -369,6 +376,8 @@ func (x *Exec) entryState(cut *ssa.BasicBlock) *State {
 			}
 			st.env[phi] = st.named(phi.Type(), "phi:"+nm+"@"+phi.Name())
 		}
+		// branch conditions on the dominator chain whose edge dominates the header still hold
+		x.assumeDominatingGuards(st, cut)
 		// assume invariants
 		ord := fx.headers[cut]
 		if c := fx.contract; c != nil {
@@ -653,4 +662,43 @@ func (x *Exec) lookupLocal(st *State, name string, at *ssa.BasicBlock) (Value, b
 		return st.loadAt(Addr{Root: val.T, Key: rootKey(pt), Ty: pt}), true
 	}
 	return val, true
+}
+
+// assumeDominatingGuards adds, at a cut point, the conditions of all conditional branches whose
+// taken edge dominates the header (SSA values are immutable, so the condition still holds).
+func (x *Exec) assumeDominatingGuards(st *State, hdr *ssa.BasicBlock) {
+	for d := hdr.Idom(); d != nil; d = d.Idom() {
+		if len(d.Instrs) == 0 {
+			continue
+		}
+		iff, ok := d.Instrs[len(d.Instrs)-1].(*ssa.If)
+		if !ok {
+			continue
+		}
+		s0, s1 := d.Succs[0], d.Succs[1]
+		dom0 := (s0 == hdr || s0.Dominates(hdr)) && len(s0.Preds) == 1
+		dom1 := (s1 == hdr || s1.Dominates(hdr)) && len(s1.Preds) == 1
+		if dom0 == dom1 {
+			continue
+		}
+		func() {
+			defer func() {
+				if r := recover(); r != nil {
+					if _, ok := r.(unsupportedErr); ok {
+						return
+					}
+					panic(r)
+				}
+			}()
+			c := x.get(st, iff.Cond)
+			if c.K != VBool {
+				return
+			}
+			if dom0 {
+				st.assume(c.T)
+			} else {
+				st.assume(not(c.T))
+			}
+		}()
+	}
 }
